@@ -496,6 +496,13 @@ func (w *world) judgeConnect(s, d int, st pbv2.Status, t0, t1 time.Duration, fau
 			w.o.Probe("connect-refused-acl")
 		}
 	case pbv2.Status_RESOURCE_LIMIT_EXCEEDED:
+		// The relay also answers RESOURCE_LIMIT_EXCEEDED when the resource scope of the stop (or hop) stream refuses
+		// SetService / ReserveMemory, which is what a scope does once its stream died: a party that disconnects
+		// concurrently in the same batch explains the code without any counter being involved.
+		if b != nil && (b.gone[s] || b.gone[d]) {
+			w.o.Probe("resource-limit-answer-while-party-disconnects")
+			break
+		}
 		if !faulted {
 			if mayS < c.maxCirc && mayD < c.maxCirc {
 				w.violate("C11/circuit-refused-below-cap", "%s -> %s refused with RESOURCE_LIMIT_EXCEEDED although %s has at most %d and %s at most %d open circuits (MaxCircuits=%d) and no refusal was injected",
